@@ -181,6 +181,7 @@ type side struct {
 	closeRet  chan struct{}  // closed when some Close/Wait returned
 	closeOnce sync.Once
 	awaits    int32
+	pending   int32 // calls whose Await has not returned yet
 	ierrs     int32
 	notFound  int32
 	// scripted transport
@@ -722,9 +723,11 @@ func (s *side) doCall(flags, method string) (*jsonrpc2.AsyncCall, int) {
 	s.perturb()
 	s.lg.logf("cr:%d:%s", c, idTok(ac.ID()))
 	atomic.AddInt32(&s.awaits, 1)
+	atomic.AddInt32(&s.pending, 1)
 	s.wg.Add(1)
 	go func() {
 		defer s.wg.Done()
+		defer atomic.AddInt32(&s.pending, -1)
 		actx, cancel := context.WithTimeout(context.Background(), s.timeout)
 		defer cancel()
 		var r json.RawMessage
@@ -999,6 +1002,14 @@ func (s *side) finish(disconnect func()) {
 	select {
 	case <-s.closeRet:
 	case <-time.After(closeGrace):
+		if atomic.LoadInt32(&s.pending) == 0 {
+			// no call of ours is outstanding and every handler was released: Close has nothing to wait for
+			select {
+			case <-s.closeRet:
+			case <-time.After(40 * closeGrace):
+				s.lg.fail("close-hang(nothing outstanding)")
+			}
+		}
 		disconnect()
 		select {
 		case <-s.closeRet:
